@@ -69,7 +69,7 @@ PROPS = {
              undischarged=["C05_map_value_claim: 'value of a present key = the surviving nested updates' outside T1/T2/T3 (monitored only; refuted inside)"]),
     "C06": P(["mvreg"], ["mvreg.apply", "mvreg.merge", "mvreg.read", "mvreg.read_ctx", "mvreg.write", "ctx.*"],
              extra_as=["writes are generated through the API with the context of a read; no delivery-order assumption"]),
-    "C10": P(["vclock"], ["vclock.*", "dot.*"], quick=1000, all_inputs=True,
+    "C10": P(["vclock"], ["vclock.*", "dot.*"], quick=1000, all_inputs=True, exact=["vclock.*", "dot.*"],
              extra_as=["clocks are well-formed (no stored zero): proved to be preserved by every API call; a stored zero is only constructible through the public field"]),
     "C11": P(["gcounter", "pncounter", "gset", "maxreg", "minreg", "lww"],
              ["gcounter.apply", "gcounter.merge", "gcounter.inc", "gcounter.inc_many", "gcounter.read",
